@@ -47,6 +47,8 @@ class Generated:
         self.binding_seqs = {}     # fn key -> names bound, in order (rule 27)
         self.constructs = {}       # fn key -> weak-specification constructs its text uses (vx/constructs.py)
         self.new_constructs = {}   # fn key -> those that the pinned text did not use
+        self.rule_counts = {}      # fn key -> {textual rule: sites where it applied}
+        self.rule_lost = {}        # fn key -> rules that apply at fewer sites than on the pinned tree
         self.skeletons = {}        # fn key -> statement skeleton of the body (vx/constructs.py)
         self.reshaped = set()      # fn keys whose skeleton is not the pinned one
         self.renamed = {}          # fn key -> {actual: pinned} alpha-renaming applied     # kept functions (verified with their bodies) that carry no contract      # contracted functions that no longer exist: (file, key, props)
@@ -214,6 +216,7 @@ def generate(unit, repo_src=None, modes=None, probe=False):
             spec = sf.fns.get(key)
             md = modes.get(key, 'full')
             body_dropped = md == 'external' or (spec is not None and spec.trust)
+            _c0 = dict(c)
             if sf.string_concat and not body_dropped:
                 from .splice import fold_string_concat
                 fold_string_concat(f, fn, ed, c)
@@ -225,6 +228,10 @@ def generate(unit, repo_src=None, modes=None, probe=False):
             if sf.dyn_calls and not body_dropped:
                 from .splice import rewrite_dyn_calls
                 rewrite_dyn_calls(f, fn, ed, c)
+            for _k, _v in c.items():       # the structural rules (7, 9, 26) applied inside this function
+                if _k.startswith('rule') and _v != _c0.get(_k, 0):
+                    g.rule_counts.setdefault(key, {})
+                    g.rule_counts[key][_k] = g.rule_counts[key].get(_k, 0) + (_v - _c0.get(_k, 0))
             if spec is None and md == 'external':
                 ed.replace(t[fn.i_bo].a, t[fn.i_bc].b, '{ unimplemented!() }')
                 ed.insert(t[fn.i_attr].a, '#[verifier::external_body]\n')
@@ -244,10 +251,16 @@ def generate(unit, repo_src=None, modes=None, probe=False):
             g.missing.append((sf.name, k_, [p_.rstrip('!') for p_ in (list(sf.fns[k_].props) or list(sf.props))]))
         text, org = ed.apply()
         # textual rules with counters (rule 13 etc.) are applied on the edited text but only change listed patterns
+        _spans = [(fn_.a, fn_.b, key_) for key_, fn_ in f.fns.items()]
         for (rname, pat, rep) in sf.regex_rules:
             # keep the origin map aligned: do the substitution piecewise
             out = []; oorg = []; pos = 0; n = 0
             for m in re.finditer(pat, text):
+                _o = next((org[q] for q in range(m.start(), min(m.end(), len(org))) if org[q] >= 0), -1)
+                _own = next((k3 for (a3, b3, k3) in _spans if a3 <= _o < b3), None) if _o >= 0 else None
+                if _own is not None:
+                    g.rule_counts.setdefault(_own, {})
+                    g.rule_counts[_own][rname] = g.rule_counts[_own].get(rname, 0) + 1
                 out.append(text[pos:m.start()]); oorg.extend(org[pos:m.start()])
                 r = rep(m) if callable(rep) else m.expand(rep)
                 out.append(r); oorg.extend([org[m.start()]] + [-1] * (len(r) - 1) if r else [])
@@ -255,6 +268,12 @@ def generate(unit, repo_src=None, modes=None, probe=False):
             out.append(text[pos:]); oorg.extend(org[pos:])
             text = ''.join(out); org = oorg
             c[rname] = c.get(rname, 0) + n
+        from . import constructs as _cs2
+        _pin_rc = _cs2.load_rule_counts().get(unit.name, {})
+        for key_ in f.fns:
+            for rname_, n_ in (_pin_rc.get(key_) or {}).items():
+                if g.rule_counts.get(key_, {}).get(rname_, 0) < n_:
+                    g.rule_lost.setdefault(key_, []).append(rname_)
         # owner map by original offsets
         spans = []
         for key, fn in f.fns.items():
